@@ -268,6 +268,17 @@ impl BoundsAnalyzer {
         domain: &IndexMap<String, DomainVariable>,
         constraints: &[Constraint],
     ) -> Self {
+        #[cfg(feature = "rooc_verif")]
+        if let Some(max_steps) = verif_hooks::max_steps_override() {
+            return Self::analyze_with_options(
+                domain,
+                constraints,
+                BoundsOptions {
+                    max_steps,
+                    ..BoundsOptions::default()
+                },
+            );
+        }
         Self::analyze_with_options(domain, constraints, BoundsOptions::default())
     }
 
@@ -467,6 +478,8 @@ impl BoundsAnalyzer {
                 }
             }
         }
+        #[cfg(feature = "rooc_verif")]
+        verif_hooks::record_steps(steps);
     }
 
     fn tighten_affine_form(
@@ -678,6 +691,94 @@ fn collect_variables(exp: &Exp, variables: &mut IndexSet<String>) {
         | Exp::BinOp(_, lhs, rhs) => {
             collect_variables(lhs, variables);
             collect_variables(rhs, variables);
+        }
+    }
+}
+
+/// Verification-only seam (feature `rooc_verif`, off by default): lets an external
+/// harness set the propagation step budget and read the derived ranges. Read-only with
+/// respect to the analysis itself; nothing here is compiled into a normal build.
+#[cfg(feature = "rooc_verif")]
+pub mod verif_hooks {
+    use super::{BoundsAnalyzer, BoundsOptions};
+    use crate::parser::model_transformer::{Constraint, DomainVariable, Exp};
+    use indexmap::IndexMap;
+    use std::cell::Cell;
+
+    thread_local! {
+        static MAX_STEPS_OVERRIDE: Cell<Option<usize>> = const { Cell::new(None) };
+        static LAST_STEPS: Cell<usize> = const { Cell::new(0) };
+    }
+
+    /// Sets (or clears) the step budget used by every subsequent bound analysis on
+    /// this thread, including the one inside `Linearizer::linearize`.
+    pub fn set_max_steps_override(max_steps: Option<usize>) {
+        MAX_STEPS_OVERRIDE.with(|cell| cell.set(max_steps));
+    }
+
+    pub(super) fn max_steps_override() -> Option<usize> {
+        MAX_STEPS_OVERRIDE.with(|cell| cell.get())
+    }
+
+    pub(super) fn record_steps(steps: usize) {
+        LAST_STEPS.with(|cell| cell.set(steps));
+    }
+
+    /// Work-list steps executed by the most recent propagation on this thread.
+    pub fn last_steps() -> usize {
+        LAST_STEPS.with(|cell| cell.get())
+    }
+
+    /// Read-only view of one bound analysis.
+    pub struct BoundsProbe {
+        analyzer: BoundsAnalyzer,
+        steps: usize,
+    }
+
+    impl BoundsProbe {
+        /// Runs the analysis with the given step budget (`None` = the shipped default).
+        pub fn analyze(
+            domain: &IndexMap<String, DomainVariable>,
+            constraints: &[Constraint],
+            max_steps: Option<usize>,
+        ) -> Self {
+            let mut options = BoundsOptions::default();
+            if let Some(max_steps) = max_steps {
+                options.max_steps = max_steps;
+            }
+            let analyzer = BoundsAnalyzer::analyze_with_options(domain, constraints, options);
+            Self {
+                analyzer,
+                steps: last_steps(),
+            }
+        }
+
+        pub fn variable_range(&self, name: &str) -> Option<(f64, f64)> {
+            self.analyzer
+                .variable_bounds
+                .get(name)
+                .map(|bounds| (bounds.lower, bounds.upper))
+        }
+
+        pub fn bounds_of(&self, exp: &Exp) -> (f64, f64) {
+            let bounds = self.analyzer.bounds_of(exp);
+            (bounds.lower, bounds.upper)
+        }
+
+        pub fn reached_iteration_limit(&self) -> bool {
+            self.analyzer.reached_iteration_limit
+        }
+
+        pub fn detected_infeasible(&self) -> bool {
+            self.analyzer.detected_infeasible
+        }
+
+        pub fn steps_used(&self) -> usize {
+            self.steps
+        }
+
+        pub fn apply_to_domain(&self, domain: &mut IndexMap<String, DomainVariable>) {
+            self.analyzer.apply_to_domain(domain);
         }
     }
 }
